@@ -38,7 +38,7 @@ theorem edge_inRange {g : VG} {s v : VState} {w : Nat} {c : Rat} (h : edge g s w
       rw [← h.1]
       refine ⟨?_, hop_lt hh⟩
       simp only [not_or, not_not] at hc
-      exact hc.2
+      exact hc.2.1
 
 theorem succ_inRange {g : VG} {u v : VState} {w : Rat} (h : (v, w) ∈ succ g u) : inRange g v := by
   unfold succ at h
